@@ -224,3 +224,4 @@ while True:
     db.Setting = f0(0, f0(0, 0))
     yield_()
 """, opts={})
+raw("FX-D41-hash-colon-hash", "C08", {"src": {"": HDR + "db.Setting = HASH('0:#')\nd1.Setting = HASH(\"room: #2\")\n"}, "opts": {"remove_labels": True, "inline_functions": False}, "family": "strings"})
